@@ -195,13 +195,16 @@ def runeAtEOF (a : LSt) : LSt :=
     | _ => a
   { a with r := runeEOF, w := 1 }
 
+/-- a byte `b` is at the cursor -/
+def runeBody (b : Byte) (bq : Nat) (a : LSt) : Step :=
+  let a := { a with look := max a.look 1 }
+  if b.toNat < 0x80 then runeAscii b bq a else .done (runeDecode a)
+
 def runeStep (bq : Nat) (a : LSt) : Step :=
   let a := a.forget
   match a.rest with
   | [] => .done (runeAtEOF a)
-  | b :: _ =>
-    let a := { a with look := max a.look 1 }
-    if b.toNat < 0x80 then runeAscii b bq a else .done (runeDecode a)
+  | b :: _ => runeBody b bq a
 
 def runeLoop : Nat → Nat → LSt → LSt
   | 0, _, a => a
